@@ -24,7 +24,7 @@ from . import build
 from .pool import Pool
 
 KNOWN = os.path.join(VERIF, "known_findings.json")
-MAX_REPLAYS = 60
+MAX_REPLAYS = 40
 
 
 def _h(obj):
@@ -253,6 +253,12 @@ def finish(mod, run, tier, seed, t0, env):
             known_hits.setdefault(e["id"], (e, []))[1].append(v)
         else:
             unmatched.append(v)
+    dump = os.environ.get("VERIF_DUMP_SIGS")
+    if dump:
+        with open(dump, "w") as f:
+            json.dump([{"sig": v["sig"], "n": v["n"], "detail": str(v["res"].get("detail", ""))[:300],
+                        "known": bool(match_known(prop, v["sig"]))} for v in run.violations.values()],
+                      f, default=str)
     lines = []
     rc = 0
     for eid, (e, vs) in sorted(known_hits.items()):
